@@ -230,9 +230,9 @@ def replay(case, stats):
 def run(ctx):
     q = ctx.quick
     ctx.units("corpus", unit_corpus, [{}])
-    ctx.units("fresh-generator-model-docs", unit_fresh, [{"n": 400 if q else 6000, "seed": ctx.seed, "shard": i} for i in range(4 if q else 16)], procs=16)
-    ctx.units("fresh-generator-noisy-docs", unit_noisy, [{"n": 400 if q else 6000, "seed": ctx.seed, "shard": i} for i in range(4 if q else 16)], procs=16)
-    ctx.units("histories-shared-generator", unit_history, [{"n": 200 if q else 2500, "seed": ctx.seed, "shard": i} for i in range(4 if q else 16)], procs=16)
+    ctx.units("fresh-generator-model-docs", unit_fresh, [{"n": 600 if q else 6000, "seed": ctx.seed, "shard": i} for i in range(8 if q else 16)], procs=16)
+    ctx.units("fresh-generator-noisy-docs", unit_noisy, [{"n": 600 if q else 6000, "seed": ctx.seed, "shard": i} for i in range(8 if q else 16)], procs=16)
+    ctx.units("histories-shared-generator", unit_history, [{"n": 300 if q else 2500, "seed": ctx.seed, "shard": i} for i in range(8 if q else 16)], procs=16)
     ctx.rule = ("fresh generator: for generated, noisy-accepted and corpus documents the multiset of all id fields of AST and pickles is exactly {0..n-1}, AST ids "
                 "equal the canonical order rendered by the model, pickle ids equal the reference compiler's (steps before their pickle), and every reference "
                 "resolves (scenario / body row of that scenario / step of that scenario or in-scope background / ancestor tag with the same name). Histories: "
